@@ -27,6 +27,9 @@ impl Frame {
     }
 }
 
+/// The maximum number of nested function calls (call frames) of a running program
+const MAX_CALL_DEPTH: usize = u16::MAX as usize;
+
 pub struct VM {
     stack: Vec<Object>,
     globals: Vec<Object>,
@@ -399,6 +402,14 @@ impl VM {
                         return Err(Error::ArgumentError(format!(
                             "functie verwacht hooguit {num_locals} argumenten, maar kreeg er {num_args}"
                         )));
+                    }
+
+                    // calls that need no stack slot (no arguments, no locals) never reach the 16-bit
+                    // stack limit above, so the number of nested calls has a limit of its own
+                    if self.frames.len() >= MAX_CALL_DEPTH {
+                        return Err(Error::ArgumentError(
+                            "stapel overloop: te veel geneste functie-aanroepen".to_string(),
+                        ));
                     }
 
                     // Make room on the stack for any local variables defined inside this function
